@@ -151,6 +151,9 @@ func (it *Interp) fsParentOK(p *StrV) bool {
 }
 
 func (it *Interp) fsMkdirAll(p *StrV) *IfaceV {
+	if it.pathHasNUL(p) {
+		return it.fsErr("fault", "mkdir: invalid argument")
+	}
 	cp := it.cleanPath(p)
 	if e := it.fsFault("mkdirall"); e != nil {
 		return e
@@ -316,7 +319,19 @@ const (
 	oAPPEND = 0x400
 )
 
+// a path containing a NUL byte is rejected by the kernel interface (EINVAL)
+func (it *Interp) pathHasNUL(p *StrV) bool {
+	var hits []*Term
+	for _, b := range p.b {
+		hits = append(hits, it.ctx.Eq(b, it.ctx.BV(0, 8)))
+	}
+	return it.branch(it.ctx.Or(hits...), "nulpath@"+it.site())
+}
+
 func (it *Interp) fsOpen(p *StrV, flag uint64) (Value, *IfaceV) {
+	if it.pathHasNUL(p) {
+		return &Ptr{}, it.fsErr("fault", "open: invalid argument")
+	}
 	cp := it.cleanPath(p)
 	wr := flag&(oWRONLY|oRDWR) != 0
 	it.fsLog("open", wr && flag&oCREATE != 0, cp, nil, it.ctx.BV(flag, 64), nil)
